@@ -341,14 +341,15 @@ class ScriptedContext:
         k = (0x5A + seq) & 0xFF
         return bytes(b ^ ((k + i) & 0xFF) for i, b in enumerate(data))
 
-    def mac(self, seq: int, parts: t.Sequence[bytes]) -> bytes:
+    def mac(self, seq: int, parts: t.Sequence[bytes], size: t.Optional[int] = None) -> bytes:
+        size = self.sig_size if size is None else size
         h = hmac.new(self.key, seq.to_bytes(4, "big"), hashlib.sha256)
         for p in parts:
             h.update(len(p).to_bytes(4, "big") + p)
         d = h.digest()
-        while len(d) < self.sig_size:
+        while len(d) < size:
             d += hashlib.sha256(d).digest()
-        return d[: self.sig_size]
+        return d[:size]
 
     @staticmethod
     def _norm(iov) -> t.List[t.Tuple[t.Any, t.Optional[bytes]]]:
@@ -385,7 +386,8 @@ class ScriptedContext:
         plain = [(bt, self.keystream_xor(d or b"", seq) if bt == BT.data else d) for bt, d in bufs]
         signed = [d or b"" for bt, d in plain if bt in (BT.sign_only, BT.data)]
         sig = next((d for bt, d in bufs if bt == BT.header), None)
-        if sig is None or not hmac.compare_digest(sig, self.mac(seq, signed)):
+        # (the peer's signature may have another size than ours: it is verified at the size it came with, at least 8 bytes)
+        if sig is None or len(sig) < 8 or not hmac.compare_digest(sig, self.mac(seq, signed, len(sig))):
             raise spnego.exceptions.BadMICError(context_msg="scripted context: signature mismatch")
         self.seq_in += 1
         return IOVUnwrapResult(tuple(spnego.iov.IOVResBuffer(bt, d) for bt, d in plain), True, 0)
